@@ -128,6 +128,17 @@ class C20(Check):
         raw_sets += [(DA, [[(4, 1), (1, 1000), (1, 10)], [(0, 1), (1, 1000), (1, 10)]]),
                      (DC, [[(4, 3), (1, 1000), (1, 10)], [(0, 3), (1, 1000), (1, 10)]]),
                      (DA, [[(0, 1), (1, 1000), (1, 10)], [(0, 1), (1, 100), (1, 1000)]])]
+        # AES entries opened by different handles with different passwords (right, a proper prefix of it, empty): whether a
+        # handle gets in must not depend on what another handle did before (implementation only: ops 5 and 6)
+        AE = genzip.build([Entry(b"a1", txt[:60], password=b"helloworld", aes=(2, 1, bytes(range(8)))),
+                           Entry(b"a2", txt[:90], method=8, password=b"helloworld", aes=(1, 3, bytes(range(16)))),
+                           Entry(b"zc", txt[:40], password=b"helloworld")])[0]
+        pw_sets = [[[(0, 0), (1, 100)], [(5, 0), (1, 100)]], [[(0, 0), (1, 100)], [(6, 0), (1, 100)]], [[(5, 1), (0, 1), (1, 100)], [(0, 1), (1, 100)]],
+                   [[(0, 2), (1, 100)], [(5, 2), (6, 2), (1, 100)]], [[(0, 0), (0, 1), (1, 10)], [(6, 1), (5, 0), (1, 10)]]]
+        for scripts in pw_sets:
+            alone = run_lines(exe, [line(AE, b"helloworld", [(0,) + s_ for s_ in sc]) for sc in scripts], shards=1)
+            for sched in interleavings(scripts):
+                cases.append((line(AE, b"helloworld", sched), dict(k="il", sched=sched, alone=alone, nh=len(scripts), impl_only=True)))
         for data, scripts in raw_sets:
             alone = run_lines(exe, [line(data, None, [(0,) + s_ for s_ in sc]) for sc in scripts], shards=1)
             for sched in interleavings(scripts):
